@@ -43,9 +43,12 @@ type caseDesc struct {
 	Geo    geo        `json:"geo"`
 	Rules  []ruleDesc `json:"rules"`
 	RefHas *ruleDesc  `json:"ref_rule,omitempty"`
-	T0     uint64     `json:"t0"`
-	Arr    []arrival  `json:"arrivals"`
-	FailAt int        `json:"fail_at,omitempty"`
+	// Lead: a throttling rule with a huge rate stands in front of the reject rules: requests arriving at the same
+	// instant are asked to wait a few nanoseconds by it and must still meet the reject rules behind it
+	Lead   bool      `json:"leading_throttling_rule,omitempty"`
+	T0     uint64    `json:"t0"`
+	Arr    []arrival `json:"arrivals"`
+	FailAt int       `json:"fail_at,omitempty"`
 }
 
 var run *vk.Run
@@ -152,6 +155,7 @@ func genCase(rng *rand.Rand) *caseDesc {
 		a.Batch = vk.PickU32(rng, 1, 1, 1, 1, 2, 3, 0, 5, 11)
 		c.Arr = append(c.Arr, a)
 	}
+	c.Lead = rng.Intn(4) == 0
 	return c
 }
 
@@ -205,6 +209,9 @@ func runCase(idx int, c *caseDesc) {
 	}
 	if c.RefHas != nil {
 		add(Q, *c.RefHas)
+	}
+	if c.Lead {
+		rules = append([]*flow.Rule{{ID: "lead", Resource: R, TokenCalculateStrategy: flow.Direct, ControlBehavior: flow.Throttling, Threshold: 1e9, MaxQueueingTimeMs: 1000}}, rules...)
 	}
 	if len(rules) > 1 && caseNo%3 == 0 {
 		// the list is installed in two steps (first rule alone, then the whole list in fresh objects): the rules added
